@@ -181,9 +181,11 @@ impl Indexable for ast::Def {
 
         // inside a multiclass: what an instantiating defm appends to its own name
         if let Some(multiclass_id) = ctx.scopes.current_multiclass_id() {
-            if let Some(record_name) = self.name().and_then(|it| relative_record_name(&it)) {
+            if let Some((record_name, is_whole_name)) =
+                self.name().and_then(|it| relative_record_name(&it))
+            {
                 let multiclass = ctx.symbol_map.multiclass_mut(multiclass_id);
-                multiclass.add_record_name(record_name);
+                multiclass.add_record_name(record_name, is_whole_name);
             }
         }
 
@@ -209,6 +211,13 @@ impl Indexable for ast::Def {
         if let Some(defset_id) = defset_id {
             let defset = ctx.symbol_map.defset_mut(defset_id);
             defset.add_def(def_id);
+        }
+
+        // `def R#i` in a foreach defines R0, R1, …: records whose names begin like this one's
+        if ctx.scopes.current_multiclass_id().is_none() {
+            if let Some((prefix, false)) = self.name().and_then(|it| relative_record_name(&it)) {
+                ctx.symbol_map.add_record_name_prefix(prefix, Some(def_id));
+            }
         }
 
         ctx.scopes.push(ScopeKind::Record(def_id));
@@ -241,26 +250,29 @@ fn index_name_value(value: ast::Value, ctx: &mut IndexCtx) -> Option<(EcoString,
     name.filter(|(name, _)| name != "NAME")
 }
 
-/// The name of a def or defm in a multiclass, relative to the name of the instantiating defm:
-/// `I` -> "I", `""` and `NAME` -> "", `NAME#"_x"` -> "_x"; `None` if the name is computed otherwise.
-fn relative_record_name(value: &ast::Value) -> Option<EcoString> {
+/// The name of a def or defm as far as it is written out: `I` -> ("I", true), `""` and `NAME` ->
+/// ("", true), `NAME#"_x"` -> ("_x", true); when a computed part follows, what stands in front
+/// of it: `R#i` -> ("R", false), `NAME#"_"#tag` -> ("_", false). (`NAME` stands for the name of
+/// the instantiating defm: the result is relative to it.) `None` if the name starts with a
+/// computed part.
+fn relative_record_name(value: &ast::Value) -> Option<(EcoString, bool)> {
     let mut name = String::new();
     for (index, inner_value) in value.inner_values().enumerate() {
-        if inner_value.suffixes().next().is_some() {
-            return None;
-        }
-        match inner_value.simple_value()? {
-            ast::SimpleValue::Identifier(id) if index == 0 => {
-                let id = id.value()?;
-                if id != "NAME" {
-                    name.push_str(&id);
-                }
+        let part = match inner_value.simple_value() {
+            _ if inner_value.suffixes().next().is_some() => None,
+            Some(ast::SimpleValue::Identifier(id)) if index == 0 => {
+                id.value().map(|it| if it == "NAME" { EcoString::new() } else { it })
             }
-            ast::SimpleValue::String(string) => name.push_str(&string.value()),
-            _ => return None,
+            Some(ast::SimpleValue::String(string)) => Some(string.value()),
+            _ => None,
+        };
+        match part {
+            Some(part) => name.push_str(&part),
+            None if index == 0 => return None,
+            None => return Some((name.into(), false)),
         }
     }
-    Some(name.into())
+    Some((name.into(), true))
 }
 
 fn index_name_part(inner_value: &ast::InnerValue, ctx: &mut IndexCtx) {
@@ -302,7 +314,7 @@ impl Indexable for ast::Defm {
 
         // the records this defm defines: its own name followed by what each record is called in
         // the multiclasses. Multiclasses are not instantiated: the names are known, no more.
-        let record_names: Vec<EcoString> = ctx
+        let record_names: Vec<(EcoString, bool)> = ctx
             .symbol_map
             .defm(defm_id)
             .parent_list
@@ -310,22 +322,33 @@ impl Indexable for ast::Defm {
             .into_iter()
             .flat_map(|it| ctx.symbol_map.record_names_of_multiclass(it))
             .collect();
-        let prefix = self.name().and_then(|it| relative_record_name(&it));
-        match (ctx.scopes.current_multiclass_id(), prefix) {
+        // (a defm whose own name goes on with a computed part: only that beginning is known)
+        let record_names: Vec<(EcoString, bool)> =
+            match self.name().and_then(|it| relative_record_name(&it)) {
+                Some((prefix, true)) => record_names
+                    .into_iter()
+                    .map(|(name, is_whole_name)| (format!("{prefix}{name}").into(), is_whole_name))
+                    .collect(),
+                Some((prefix, false)) => vec![(prefix, false)],
+                None => Vec::new(),
+            };
+        match ctx.scopes.current_multiclass_id() {
             // an inner defm: the enclosing multiclass defines these records in its turn
-            (Some(multiclass_id), Some(prefix)) => {
+            Some(multiclass_id) => {
                 let multiclass = ctx.symbol_map.multiclass_mut(multiclass_id);
-                for record_name in record_names {
-                    multiclass.add_record_name(format!("{prefix}{record_name}").into());
+                for (record_name, is_whole_name) in record_names {
+                    multiclass.add_record_name(record_name, is_whole_name);
                 }
             }
-            (None, Some(prefix)) => {
-                for record_name in record_names {
-                    ctx.symbol_map
-                        .add_defm_record_name(format!("{prefix}{record_name}").into());
+            None => {
+                for (record_name, is_whole_name) in record_names {
+                    if is_whole_name {
+                        ctx.symbol_map.add_defm_record_name(record_name);
+                    } else {
+                        ctx.symbol_map.add_record_name_prefix(record_name, None);
+                    }
                 }
             }
-            _ => {}
         }
 
         None
@@ -904,6 +927,10 @@ impl Indexable for ast::InnerValue {
                 }
                 ast::ValueSuffix::FieldSuffix(field_suffix) => {
                     let (name, reference_loc) = utils::identifier(&field_suffix.name()?, ctx)?;
+                    // a record of unknown class has unknown fields
+                    if matches!(lhs_typ, Type::Unknown) {
+                        return Some(Type::Unknown);
+                    }
                     let Some(field_id) = lhs_typ.find_field(&ctx.symbol_map, &name) else {
                         ctx.error(
                             field_suffix.syntax().text_range(),
@@ -992,6 +1019,17 @@ impl Indexable for ast::SimpleValue {
                         // a record defined by a defm (`SLLI` of `defm SLL : M` with `def I` in
                         // M): it exists, its class is not known
                         Some(Type::Unknown)
+                    } else if let Some(record_id) = ctx.symbol_map.find_record_by_name_prefix(&name)
+                    {
+                        // one of the records of `foreach i = … in def R#i : …`, or of a defm
+                        // whose multiclass computes the rest of the name
+                        match record_id {
+                            Some(record_id) => {
+                                let record_name = ctx.symbol_map.record(record_id).name.clone();
+                                Some(Type::Record(record_id, record_name))
+                            }
+                            None => Some(Type::Unknown),
+                        }
                     } else {
                         ctx.error(reference_loc.range, format!("symbol not found: {name}"));
                         None
